@@ -50,7 +50,7 @@ theorem storeEntriesU {clW clR clBits : List Nat} {symBits : Nat → List Bool} 
         simp only [e16, ↓reduceIte, writeBits_ok 3 extra _ (h17 rfl) (by omega), Out.bind_ok]
         rw [ih _ (fun e he => hv e (List.mem_cons_of_mem _ he))]
         simp [entryBitsU]
-      · simp only [e16, e17, ↓reduceIte, Out.bind_ok]
+      · simp only [e16, e17, ↓reduceIte]
         rw [ih _ (fun e he => hv e (List.mem_cons_of_mem _ he))]
         simp [entryBitsU, e16, e17]
 
